@@ -4603,6 +4603,15 @@ class ParameterizedMetaclass(type):
             if owning_class != mcs:
                 parameter = copy.copy(parameter)
                 parameter.owner = mcs
+                # The copy gets its own mutable attributes (the objects of a
+                # Selector, ...), like the per-instance copies do: editing
+                # them on this class must not reach the class the Parameter
+                # was inherited from. The watchers stay shared.
+                for slot in parameter.__class__._all_slots_:
+                    slot_value = getattr(parameter, slot)
+                    if (_is_mutable_container(slot_value)
+                            and slot not in ('default', 'watchers')):
+                        object.__setattr__(parameter, slot, copy.copy(slot_value))
                 type.__setattr__(mcs,attribute_name,parameter)
                 # the copy replaces the inherited Parameter in the cached
                 # params() of this class and of its subclasses
